@@ -368,6 +368,8 @@ package db
 //@ func DatabaseCollectionWithUser.SimpleMultiChangesFeed$1
 //@   only-contracts ChangeWaiter.Wait, waitForCacheUpdate
 //@   modifies *
+// (C01: "a continuous or long-poll request eventually delivers every change; resuming from any handed-out position")
+//@   also C01: low-is-oldest-skipped-1, stamped-low, low-restored-parked, low-restored-wait, low-restored-cachewait, low-restored
 //@   before[low-is-oldest-skipped-1] call DebugfCtx#7 $2 == "MultiChangesFeed sending %+v %s" && lowSequence == ite(callres(getOldestSkippedSequence, 1, 0) > 0, callres(getOldestSkippedSequence, 1, 0) - 1, 0)
 //@   before[stamped-low]            call DebugfCtx#7 minEntry.Seq.LowSeq == lowSequence
 //@   before[low-restored-parked]    call DebugfCtx#3 $2 == "MultiChangesFeed waiting... %s" && (!useLateSequenceFeeds ==> options.Since.LowSeq == requestLowSeq)
